@@ -113,13 +113,23 @@ def mix_ll(weight, logp):
         return float(np.sum(_lse(np.log(w) + logp, axis=-2)))
 
 
-def trace_bounded_instance():
+def trace_bounded_instance(outliers_only=False, pinned=False):
     from pb_bss.distribution import CACGMMTrainer, CWMMTrainer, GMMTrainer, GCACGMMTrainer
     from pb_bss.utils import unsqueeze
 
     def make(B):
-        return {'which': B.choose('which', ['cacgmm', 'cacgmm-continued', 'cwmm', 'gmm-full', 'gmm-diagonal', 'gmm-spherical', 'gcacgmm', 'gcacgmm', 'cwmm-sal',
-                                            'cwmm-sal']),
+        if pinned:          # the input of a known finding, evaluated on every run
+            return {'which': B.choose('which', ['gmm-spherical']), 'wca': B.choose('wca', [(-3,)]), 'sal': B.choose('sal', [True]), 'K': B.choose('K', [3]),
+                    'D': B.choose('D', [4]), 'n_it': B.choose('n_it', [8]), 'seed': B.choose('seed', [2537]), 'd': B.given('d', np.zeros(1))}
+        if outliers_only:
+            # (per-frame weights, weight_constant_axis=(-3,), can become exactly zero for the class whose density dominates an outlier by
+            # more than 745 nats: the known finding pinned below; the family keeps to the other tying options)
+            return {'which': B.choose('which', ['gmm-diagonal', 'gmm-spherical']), 'wca': B.choose('wca', [(-1,), -2, (-3, -1)]), 'sal': B.choose('sal', [False, True, True]),
+                    'K': B.choose('K', [2, 3]), 'D': B.choose('D', [2, 3, 4]), 'n_it': B.choose('n_it', [3, 8, 20, 50]),
+                    'seed': B.choose('seed', list(range(5000))), 'd': B.given('d', np.zeros(1))}
+        return {'which': B.choose('which', ['gmm-diagonal', 'gmm-spherical']) if outliers_only else
+                B.choose('which', ['cacgmm', 'cacgmm-continued', 'cwmm', 'gmm-full', 'gmm-diagonal', 'gmm-spherical', 'gcacgmm', 'gcacgmm', 'cwmm-sal',
+                                   'cwmm-sal']),
                 'wca': B.choose('wca', [(-1,), -2, (-3,), (-3, -1)]), 'sal': B.choose('sal', [False, True, True]),
                 'K': B.choose('K', [2, 3]), 'D': B.choose('D', [2, 3, 4]), 'n_it': B.choose('n_it', [3, 8, 20, 50]),
                 'seed': B.choose('seed', list(range(5000))), 'd': B.given('d', np.zeros(1))}
@@ -127,6 +137,8 @@ def trace_bounded_instance():
     def call(inp):
         rng = np.random.RandomState(inp['seed'])
         which, K, D, n_it, wca = inp['which'], inp['K'], inp['D'], inp['n_it'], inp['wca']
+        if outliers_only:
+            n_it = min(n_it, 8)
         force_sal = which == 'cwmm-sal'          # the Watson mixture with importance weights (20 iterations at most)
         if force_sal:
             which, n_it = 'cwmm', min(n_it, 20)
@@ -140,6 +152,11 @@ def trace_bounded_instance():
         if which == 'cwmm' and (inp['seed'] // 2) % 2 == 0:
             noise = float(rng.uniform(0.13, 0.2))       # concentrated classes: Watson concentrations of 50 .. 300, below the table end
         y = np.take_along_axis(cent, lab[..., None], axis=1) + noise * (rng.normal(size=(F, N, D)) + (1j * rng.normal(size=(F, N, D)) if cplx else 0))
+        if which in ('gmm-diagonal', 'gmm-spherical') and (outliers_only or ((inp['seed'] // 5) % 3 == 0 and wca != (-3,))):
+            # tight classes and a few far outliers: the log-densities of one fit span millions of nats ACROSS observations (far beyond the
+            # range of exp), which is harmless as long as every observation is normalised on its own
+            y = np.take_along_axis(cent, lab[..., None], axis=1) + 0.02 * rng.normal(size=(F, N, D))
+            y[:, :3] += 40.0 * rng.normal(size=(F, 3, D))
         if cplx and inp['seed'] % 2:
             # the directional models see directions only: frames of any level (quiet frames next to loud ones) give the same trace
             y = y * 10.0 ** rng.uniform(-4.5, 2.0, size=(F, N, 1))
@@ -256,7 +273,9 @@ def trace_bounded_instance():
                 yield 'own-log_likelihood-equals-mixture-log-likelihood', bool(abs(o - ll[i]) <= 1e-8 * max(1.0, abs(ll[i])))
                 break
 
-    return Instance('C02', DN + '*Trainer.fit', 'bounded-log-likelihood-traces', make, call, ensures, mode='bounded', bounded_n=90, frame=False)
+    return Instance('C02', DN + '*Trainer.fit', 'bounded-log-likelihood-traces' + ('-tight-classes-with-far-outliers' if outliers_only else '')
+                    + ('-pinned-known-finding-zero-weight-underflow' if pinned else ''), make, call, ensures,
+                    mode='bounded', bounded_n=1 if pinned else (24 if outliers_only else 90), frame=False, fixed_seed=bool(pinned))
 
 
 def instances(tier):
@@ -267,6 +286,8 @@ def instances(tier):
     out.append(loglik_instance(2, 2, (1, 2, 2), (2,)))
     out.append(loglik_instance(2, 2, (1, 2, 1), (2,)))
     out.append(trace_bounded_instance())
+    out.append(trace_bounded_instance(outliers_only=True))
+    out.append(trace_bounded_instance(outliers_only=True, pinned=True))
     from .common import lemma_instance
     out.append(lemma_instance('C02', 'em', 'lemma:em-monotonicity-from-the-expected-complete-data-log-likelihood'))
     out.append(lemma_instance('C02', 'gauss_mstep', 'lemma:gaussian-m-step-maximises-the-expected-complete-data-log-likelihood'))
